@@ -528,9 +528,11 @@ func (r *ref) query(c int, kind string, lo, hi int64) (string, string) {
 			return "error", "every owner down or refusing"
 		}
 	}
-	if !known {
+	if !known && kind != "count" && kind != "count2" {
 		return "ok -", "" // nobody knows the field: nothing is iterated anywhere
 	}
+	// (count counts values of any type: it builds its iterators even for a field nobody has,
+	// so every needed shard must be servable)
 	for _, sh := range needed {
 		if ok, why := r.servable(c, sh); !ok {
 			return "error", why
